@@ -16,12 +16,20 @@ fn debug_variant(m: &Message) -> String {
 }
 
 fn check_frame(ctx: &mut Ctx, f: &[u8], supported: &[u16], shape: &'static str) {
+    check_frame_in(ctx, f, &[], supported, shape);
+    // the same frame as it appears in a stream: followed by other bytes
+    check_frame_in(ctx, f, &[0x3E, 0xD0, 0x00, 0xD3, 0x00], supported, "same_frames_followed_by_other_bytes");
+}
+
+fn check_frame_in(ctx: &mut Ctx, f: &[u8], suffix: &[u8], supported: &[u16], shape: &'static str) {
     ctx.eval();
     ctx.count(shape);
     let l = f.len() - 6;
-    let replay = || json!({"kind":"frame","hex":hex(f)});
+    let replay = || json!({"kind":"frame","hex":hex(f),"suffix":hex(suffix)});
+    let mut buf = f.to_vec();
+    buf.extend_from_slice(suffix);
     let r = guard(|| {
-        let mf = MessageFrame::new(f).ok()?;
+        let mf = MessageFrame::new(&buf).ok()?;
         Some((mf.message_number(), mf.get_message()))
     });
     let (num, m) = match r {
@@ -43,7 +51,7 @@ fn check_frame(ctx: &mut Ctx, f: &[u8], supported: &[u16], shape: &'static str) 
         return;
     }
     let n = bits::read(f, 24, 12) as u16;
-    ctx.nontrivial(hash_bytes(f));
+    ctx.nontrivial(hash_bytes(&buf));
     if num != Some(n) {
         ctx.violation("C14.frame_number".into(), "C14.frame_number", format!("message_number() = {:?}, first 12 payload bits = {}", num, n), replay());
     }
@@ -177,8 +185,9 @@ pub fn replay(_p: &Params, v: &Value) -> Outcome {
     let mut ctx = Ctx::new(0);
     if v["kind"] == "frame" {
         let f = unhex(v["hex"].as_str().unwrap_or(""));
+        let sfx = unhex(v["suffix"].as_str().unwrap_or(""));
         let sup: Vec<u16> = gen::supported_numbers().to_vec();
-        check_frame(&mut ctx, &f, &sup, "replay");
+        check_frame_in(&mut ctx, &f, &sfx, &sup, "replay");
     } else {
         let all = gen::all_msgs_list();
         let sup: Vec<u16> = gen::supported_numbers().to_vec();
